@@ -3,6 +3,7 @@
 package internal
 
 import (
+	"context"
 	"fmt"
 	"sync/atomic"
 	"testing"
@@ -26,6 +27,12 @@ func TestVerifRingStore(t *testing.T) {
 			s.Set(k, k, 1, 0)
 		}
 		vdrainWrites(s)
+		// the hit path of the loading cache records reads in the same stripes; some callers come with a context that is
+		// already cancelled (a hit needs no load: the value is returned, and the read must be recorded all the same)
+		ls := NewLoadingStore(s)
+		ls.Loader(func(ctx context.Context, key int) (Loaded[int], error) { return Loaded[int]{Value: key, Cost: 1}, nil })
+		cancelled, cancel := context.WithCancel(context.Background())
+		cancel()
 		b := s.stripedBuffer[0]
 		v := &vring{}
 		fn := func(pc int) {
@@ -62,7 +69,14 @@ func TestVerifRingStore(t *testing.T) {
 		begin := func(th *vthread) {
 			key := 1 + r.intn(nkeys)
 			h, _ := s.index(key)
-			pc := v.start(th, func() { s.Get(key) })
+			get := func() { s.Get(key) }
+			switch r.intn(4) {
+			case 1:
+				get = func() { _, _ = ls.Get(context.Background(), key) }
+			case 2:
+				get = func() { _, _ = ls.Get(cancelled, key) }
+			}
+			pc := v.start(th, get)
 			lastPC[th.id] = pc
 			tr.op("start", ss("0", i64(int64(th.id)), u(h)), nil)
 		}
